@@ -81,6 +81,7 @@ type FnCtx struct {
 	inlined       map[string]bool
 	usedContracts map[string]*FuncContract
 	callFVs       map[string]Val // captured-variable bindings for the next callByContract (closure call)
+	callOuter     map[string]Val // enclosing function's parameters for the next callByContract (call of a func-typed parameter)
 	usedLockInvs  map[string]bool
 	typeIDs       map[string]bool
 	axiomFacts    []string
@@ -208,6 +209,15 @@ func (c *FnCtx) verify() {
 		}
 		st.assume(t)
 	}
+	// a closure used as a callback keeps its invariants: assumed here, obligations at every return
+	for _, r := range fc.CbInvs {
+		t, err := c.evalBool(env, r.Expr)
+		if err != nil {
+			c.errs = append(c.errs, fmt.Sprintf("%s:%d: invariant %s: %v", r.File, r.Line, r.Label, err))
+			continue
+		}
+		st.assume(t)
+	}
 	if len(fc.Held) > 0 {
 		st.oldHeap = copyHeap(st.heap)
 	}
@@ -247,6 +257,14 @@ func (c *FnCtx) checkReturn(frame *Frame, st *State, results []Val, ret *ssa.Ret
 		}
 		o := c.addOblig(st, "ensures:"+e.Label, "ensures", t, e.Text, ret.Pos())
 		o.Vars = c.modelVars(st)
+	}
+	for _, e := range fc.CbInvs {
+		t, err := c.evalBool(env, e.Expr)
+		if err != nil {
+			c.errs = append(c.errs, fmt.Sprintf("%s:%d: invariant %s: %v", e.File, e.Line, e.Label, err))
+			continue
+		}
+		c.addOblig(st, "invariant:"+e.Label, "ensures", t, e.Text, ret.Pos())
 	}
 	for _, h := range fc.Held {
 		c.exitHeld(st, env, h, ret.Pos())
